@@ -99,7 +99,7 @@ prometheus/metrics.go on every run (extract/golean.go): the clock is the paramet
 theorem code_start_refines_model (get : GoRT.Opaque "ipinfo.IPInfoMap" → List UInt8 → Gen.Code.IPInfo × Option String)
     (asSlice : GoRT.Opaque "netip.Addr" → List UInt8) (asnLabel : Int → String) (now : Nat)
     (c : Gen.Code.tunnelTimeMetrics) (t : TT) (k : Gen.Code.IPKey) (h : Tie.TunnelTime.Sim asnLabel c t) :
-    ∃ c', Gen.Code.tunnelTimeMetrics.startConnection get asSlice (now : Int) c k = some c' ∧ c'.ip2info = c.ip2info ∧
+    ∃ c', Gen.Code.tunnelTimeMetrics.startConnection asSlice get (now : Int) c k = some c' ∧ c'.ip2info = c.ip2info ∧
       Tie.TunnelTime.Sim asnLabel c'
         (start t (Tie.TunnelTime.absKey k) now (Tie.TunnelTime.locOf asnLabel (Tie.TunnelTime.lookupInfo get asSlice c k))) :=
   Tie.TunnelTime.start_tie get asSlice asnLabel now c t k h
@@ -112,7 +112,7 @@ theorem code_stop_refines_model (asnLabel : Int → String) (now : Nat) (c : Gen
 
 theorem code_collect_refines_model (asnLabel : Int → String) (now : Nat) (c : Gen.Code.tunnelTimeMetrics) (t : TT)
     (h : Tie.TunnelTime.Sim asnLabel c t) :
-    ∃ c', Gen.Code.tunnelTimeMetrics.Collect (now : Int) asnLabel c = some c' ∧ c'.ip2info = c.ip2info ∧
+    ∃ c', Gen.Code.tunnelTimeMetrics.Collect asnLabel (now : Int) c = some c' ∧ c'.ip2info = c.ip2info ∧
       Tie.TunnelTime.Sim asnLabel c' (collect t now) :=
   Tie.TunnelTime.collect_tie asnLabel now c t h
 
